@@ -76,7 +76,8 @@ def gen_case(rng):
     T = rng.randint(1, 5)
     shape = (8, 8) if nd == 2 else (3, 5, 5)
     pool = rng.choice([[1, 2, 3, 4], [1, 2, 3, 4, 5, 6, 7], [3, 9, 27]])
-    src = np.zeros((T, *shape), dtype=rng.choice([np.int32, np.int64, np.uint16]))
+    src = np.zeros((T, *shape), dtype=rng.choice([np.int32, np.int64, np.uint16, np.uint8,
+                                                   np.uint8]))
     dets = []  # (t, label)
     for t in range(T):
         for lab in rng.sample(pool, rng.randint(0, min(3, len(pool)))):
@@ -109,6 +110,21 @@ def gen_case(rng):
     if len(set(ids)) != n:
         ids = list(range(100, 100 + n))
         scheme = "fresh"
+    # ids at the top of the label dtype's range (and 0 forcing the +1 shift beyond it)
+    if n >= 2 and src.dtype in (np.uint8, np.uint16) and rng.random() < 0.3:
+        top = int(np.iinfo(src.dtype).max)
+        if top not in ids:
+            ids[rng.randrange(n)] = top
+        if rng.random() < 0.6 and 0 not in ids:
+            j = rng.choice([i for i in range(n) if ids[i] != top])
+            ids[j] = 0
+        scheme = "dtype-max"
+    # row order: sorted by time, or track by track / shuffled (rows of one frame apart)
+    order = list(range(n))
+    if rng.random() < 0.5:
+        rng.shuffle(order)
+    listed = [listed[i] for i in order]
+    ids = [ids[i] for i in order]
     # forest edges over listed detections (forward in time)
     edges = []
     haspar = set()
@@ -118,7 +134,8 @@ def gen_case(rng):
             j = rng.choice(later)
             edges.append((ids[i], ids[j]))
             haspar.add(j)
-    return {"nd": nd, "src": src, "listed": listed, "ids": ids, "edges": edges,
+    return {"sorted_rows": order == sorted(order),
+            "nd": nd, "src": src, "listed": listed, "ids": ids, "edges": edges,
             "scheme": scheme, "unlisted": len(dets) - len(listed),
             "scale": rng.choice([None, None, [1.0] + [rng.choice([1.0, 2.0, 0.5])
                                                       for _ in range(nd)]])}
@@ -252,6 +269,12 @@ def run_shard(spec):
         if case["unlisted"]:
             acc["counters"]["cases-with-unlisted"] = \
                 acc["counters"].get("cases-with-unlisted", 0) + 1
+        if not case.get("sorted_rows", True):
+            acc["counters"]["cases-rows-not-grouped-by-time"] = \
+                acc["counters"].get("cases-rows-not-grouped-by-time", 0) + 1
+        if case["scheme"] == "dtype-max":
+            acc["counters"]["cases-id-at-dtype-max"] = \
+                acc["counters"].get("cases-id-at-dtype-max", 0) + 1
         if case["scheme"] in ("permute-labels", "equal-other-label"):
             acc["counters"]["cases-colliding-ids"] = \
                 acc["counters"].get("cases-colliding-ids", 0) + 1
@@ -268,7 +291,8 @@ def run_shard(spec):
 def floors(tier):
     return {"cases": 2000, "route-direct": 2000, "route-import": 1500, "cases-with-id-0": 150,
             "cases-with-unlisted": 500, "cases-colliding-ids": 500,
-            "postcondition-evaluations": 2500}
+            "postcondition-evaluations": 2500, "cases-rows-not-grouped-by-time": 500,
+            "cases-id-at-dtype-max": 100}
 
 
 def replay(doc):
